@@ -498,8 +498,8 @@ SPEC_KEYWORDS = {
 }
 
 
-def r9_keyword_whitelist_complete(chk: Check) -> None:
-    chk.rule("C01.R9", "COMPLETE(keyword whitelist of non-body parameters): from_open_api_to_json_schema keeps only the keys listed in `supported_jsonschema_keywords`; a validation keyword the specification allows there and the list lacks is silently DROPPED before generation, so values it forbids are generated as positive data (`not`, `enum`, `required`, a bound ...) - the list of each parameter class covers the specification's validation keywords", floor=2)
+def r9_keyword_whitelist_complete(chk: Check, RID: str = "C01.R9", consequence: str = "") -> None:
+    chk.rule(RID, "COMPLETE(keyword whitelist of non-body parameters): from_open_api_to_json_schema keeps only the keys listed in `supported_jsonschema_keywords`; a validation keyword the specification allows there and the list lacks is silently DROPPED before generation, so values it forbids are generated as positive data (`not`, `enum`, `required`, a bound ...) - the list of each parameter class covers the specification's validation keywords", floor=2)
     P = chk.project
     mod = P.module("specs/openapi/parameters.py")
     classes = {n.name: n for n in mod.tree.body if isinstance(n, ast.ClassDef)}
@@ -544,20 +544,20 @@ def r9_keyword_whitelist_complete(chk: Check) -> None:
         return None
 
     filt = P.func("specs/openapi/parameters.py:OpenAPIParameter.from_open_api_to_json_schema")
-    chk.expect("self.supported_jsonschema_keywords" in unparse(filt.node, 3000), "C01.R9", filt, "the filter reads self.supported_jsonschema_keywords", "the filter no longer reads the whitelist", filt.loc())
+    chk.expect("self.supported_jsonschema_keywords" in unparse(filt.node, 3000), RID, filt, "the filter reads self.supported_jsonschema_keywords", "the filter no longer reads the whitelist", filt.loc())
     for cname, spec in SPEC_KEYWORDS.items():
         have = value_of(cname)
         construct = f"{cname}.supported_jsonschema_keywords covers the specification's validation keywords"
         if have is None:
-            chk.undecided("C01.R9", f"specs/openapi/parameters.py:{cname}", construct, "value of the list not statically evaluable")
+            chk.undecided(RID, f"specs/openapi/parameters.py:{cname}", construct, "value of the list not statically evaluable")
             continue
         missing = sorted(spec - have)
         if missing:
-            chk.violation("C01.R9", f"specs/openapi/parameters.py:{cname}", construct,
-                          f"{missing} allowed by the specification but not in the list: the keyword is removed from every inline parameter schema before generation, so positive data violates it (e.g. `enum: [active, deleted], not: {{enum: [deleted]}}` yields `deleted`)",
+            chk.violation(RID, f"specs/openapi/parameters.py:{cname}", construct,
+                          f"{missing} allowed by the specification but not in the list: {consequence}the keyword is removed from every inline parameter schema before generation, so positive data violates it (e.g. `enum: [active, deleted], not: {{enum: [deleted]}}` yields `deleted`)",
                           f"specs/openapi/parameters.py:{classes[cname].lineno}")
         else:
-            chk.ok("C01.R9", f"specs/openapi/parameters.py:{cname}", construct, f"{len(have)} keywords", f"specs/openapi/parameters.py:{classes[cname].lineno}")
+            chk.ok(RID, f"specs/openapi/parameters.py:{cname}", construct, f"{len(have)} keywords", f"specs/openapi/parameters.py:{classes[cname].lineno}")
 
 
 def r10_validity_filters_universal(chk: Check) -> None:
